@@ -24,11 +24,14 @@ def job_matrix(rnd, nj, nm, dmin=1, dmax=9, classic=True):
 
 
 def spec_text(rows, nm, rnd=None, layout=0):
-    sep = " " if layout == 0 else ("  " if layout == 1 else "")
+    # layout 3: groups separated by tabs, as pasted from a spreadsheet (the validator's `\s*`), a trailing
+    # tab on odd lines
+    sep = " " if layout == 0 else ("  " if layout == 1 else ("\t" if layout == 3 else ""))
     hdr = "|".join(f"(m{i},t)" for i in range(nm))
     lines = [hdr]
     for j, r in enumerate(rows):
-        lines.append(f"j{j}|" + sep.join(f"({m},{d})" if layout != 1 else f"({m}, {d})" for m, d in r))
+        lines.append(f"j{j}|" + sep.join(f"({m},{d})" if layout != 1 else f"({m}, {d})" for m, d in r)
+                     + ("\t" if layout == 3 and j % 2 == 1 else ""))
     return "\n".join(lines) + "\n"
 
 
@@ -100,7 +103,7 @@ def gen_instance(rnd, family):
             nj, nm = rnd.randint(2, 3), rnd.randint(11, 12)
     dmin = 0 if rnd.random() < 0.1 else 1
     rows = job_matrix(rnd, nj, nm, dmin=dmin, dmax=rnd.choice([3, 9, 20]), classic=rnd.random() < 0.85)
-    inst = {"description": f"{nj}x{nm}", "specification": spec_text(rows, nm, layout=rnd.choice([0, 0, 1, 2]))}
+    inst = {"description": f"{nj}x{nm}", "specification": spec_text(rows, nm, layout=rnd.choice([0, 0, 1, 2, 3]))}
     ic = {"description": f"gen {family}", "instance": inst}
     doc = {"title": "InstanceConfig", "instance_config": ic}
     meta.update(nj=nj, nm=nm, zero_dur=dmin == 0)
@@ -320,9 +323,16 @@ def spread_placement(sc, rnd):
             init[f"j-{j}"] = {"location": bl[0]["name"]}
     if "capacity" in third and isinstance(third["capacity"], int):
         third["capacity"] = max(third["capacity"], len(there) + 1)
-    if there and rnd.random() < 0.5:
-        rnd.shuffle(there)
-        init[third["name"]] = {"store": there}
+    if there and rnd.random() < 0.6:
+        # a listing names some of the jobs located here, in an order of its own; the others follow in job order
+        listed = [x for x in there if rnd.random() < 0.5]
+        rnd.shuffle(listed)
+        init[third["name"]] = {"store": listed}
+    here = [f"j-{j}" for j in range(nj) if f"j-{j}" not in there]
+    if len(here) >= 2 and rnd.random() < 0.5:
+        listed = [x for x in here if rnd.random() < 0.4]
+        rnd.shuffle(listed)
+        init[bl[0]["name"]] = {"store": listed}
     if not init:
         doc.pop("init_state", None)
     sc["meta"]["features"] = sorted(set(feats) | {"spread_placement"})
@@ -369,10 +379,9 @@ def staging_placement(sc, rnd):
     if len(bl) == 2:
         used = {e["name"] for e in bl}
         bl.append({"name": next(f"b-{k}" for k in range(90, 130) if f"b-{k}" not in used),
-                   "type": "flex", "role": rnd.choice(["compensation", "input"]), "capacity": nj + 1})
+                   "type": "flex", "role": rnd.choice(["compensation", "input", "output"]), "capacity": nj + 1})
     third = bl[2]
-    if third.get("role") == "output":
-        return False
+    second_output = third.get("role") == "output"   # a second output buffer at another distance: nothing starts there
     third["type"] = "flex"
     lines = [l.strip() for l in lg["specification"].strip().split("\n")]
     names = lines[0].split("|")
@@ -394,6 +403,8 @@ def staging_placement(sc, rnd):
     there = [j for j in range(nj) if rnd.random() < 0.45] or [nj - 1]
     if len(there) == nj:
         there = there[1:]
+    if second_output:
+        there = []
     for j in there:
         init[f"j-{j}"] = {"location": third["name"]}
     if isinstance(third.get("capacity"), int):
